@@ -167,6 +167,51 @@ func deepAtomic(n ast.Node) bool {
 	return found
 }
 
+// chanNames: names declared with a channel type anywhere in the package (fields, variables made
+// with make(chan ...)); filled by Instrument before the statements are visited.
+var chanNames = map[string]bool{}
+
+func collectChanNames(files []*ast.File) {
+	chanNames = map[string]bool{}
+	isChan := func(e ast.Expr) bool {
+		if ce, ok := e.(*ast.CallExpr); ok {
+			if id, ok := ce.Fun.(*ast.Ident); ok && id.Name == "make" && len(ce.Args) > 0 {
+				_, ok := ce.Args[0].(*ast.ChanType)
+				return ok
+			}
+		}
+		return false
+	}
+	for _, f := range files {
+		ast.Inspect(f, func(m ast.Node) bool {
+			switch x := m.(type) {
+			case *ast.Field:
+				if _, ok := x.Type.(*ast.ChanType); ok {
+					for _, n := range x.Names {
+						chanNames[n.Name] = true
+					}
+				}
+			case *ast.ValueSpec:
+				_, typed := x.Type.(*ast.ChanType)
+				for i, n := range x.Names {
+					if typed || (i < len(x.Values) && isChan(x.Values[i])) {
+						chanNames[n.Name] = true
+					}
+				}
+			case *ast.AssignStmt:
+				for i, v := range x.Rhs {
+					if i < len(x.Lhs) {
+						if id, ok := x.Lhs[i].(*ast.Ident); ok && isChan(v) {
+							chanNames[id.Name] = true
+						}
+					}
+				}
+			}
+			return true
+		})
+	}
+}
+
 // parksUnmodelled names the way statement s (not its nested blocks) can park its goroutine outside
 // the scheduler's control, or returns "".
 func parksUnmodelled(s ast.Stmt) string {
@@ -179,7 +224,17 @@ func parksUnmodelled(s ast.Stmt) string {
 	case *ast.SendStmt:
 		return "channel send of a computed value"
 	case *ast.RangeStmt:
-		return "" // (ranging over a channel cannot be told from the syntax; not seen in this package)
+		name := ""
+		switch r := x.X.(type) {
+		case *ast.Ident:
+			name = r.Name
+		case *ast.SelectorExpr:
+			name = r.Sel.Name
+		}
+		if chanNames[name] {
+			return "range over a channel"
+		}
+		return ""
 	}
 	why := ""
 	ast.Inspect(s, func(m ast.Node) bool {
@@ -442,6 +497,7 @@ func Instrument(srcDir, outDir, keyDir string) (*Result, error) {
 		fs = append(fs, p.f)
 	}
 	noEntry := orderDependent(fs)
+	collectChanNames(fs)
 	for _, p := range ps {
 		base := filepath.Base(p.fn)
 		src := p.src
